@@ -9,6 +9,11 @@ PATHS = ["/", "/a", "/a?k=v", "/a?k=w", "/a?K=V&q=w", "/a?q=", "/A/b", "/ab?k=v"
          "/vmAgentLog", "/machine/?comp=telemetrydata", "/VMAGENTLOG", "/Machine/?Comp=TelemetryData"]
 DESTS = ["wireserver", "hostga", "imds", "self", "other"]
 ATTR = ["record", "record", "record", "none", "deadpid", "unknownuid", "nonutf8"]
+# "the client receives an error status (404/421/500/403) instead": the statement names the set, not which member goes with which reason
+ERR = {403, 404, 421, 500}
+# the agent marks every response it relays from a host with this header ("to let the client know it is through proxy agent"); the only
+# evidence of relaying available when the destination is the agent's own listener (no mock sees those bytes)
+RELAY_MARK = b"x-ms-azure-host-authorization"
 
 
 def expected(case, docs, idents):
@@ -68,6 +73,9 @@ def worker(args, scratch):
                             pick = r.choice(["userName", "processName", "exePath", "groupName"])
                             it[pick] = {"userName": c["userName"], "processName": c["processName"], "exePath": c["processFullPath"],
                                         "groupName": (c["userGroups"] or ["none"])[0]}[pick]
+                            if pick == "groupName" and r.random() < 0.3:
+                                it[pick] = "g"      # a group that exists (its gid is the uid of the caller 'gidzero') and has no members
+
                 w.rules(ep, docs.get(ep))
             if r.random() < 0.5:
                 w.key("11111111-2222-3333-4444-%012d" % pol, "%064x" % r.getrandbits(256))
@@ -133,7 +141,11 @@ def worker(args, scratch):
                     known_ids[vid] = dest
                     bump("expected_forward")
                     if not relayed:
-                        res["violations"].append(["forward-expected-but-not-relayed", witness])
+                        # "relayed only if ...": a request the reference would authorize may still be refused (stricter validation
+                        # is not excluded by the statement) - as long as it IS a refusal: error status, nothing upstream
+                        bump("authorized_by_reference_but_refused")
+                        if status not in ERR and not (isinstance(status, int) and status >= 500):
+                            res["violations"].append(["not-relayed-and-no-error-status", witness])
                     elif ups[0].host != dest or len(ups) != 1:
                         res["violations"].append(["relayed-to-wrong-host-or-twice", witness])
                     elif status != 200 or resp.body != b"echo:" + vid.encode():
@@ -144,8 +156,12 @@ def worker(args, scratch):
                     bump("expected_refusal_%s" % "_".join(str(x) for x in sorted(exp)))
                     if relayed or any(m.raw_contains(vid.encode()) for m in w.mocks.values()):
                         res["violations"].append(["refused-request-reached-upstream", witness])
-                    if status not in exp:
+                    if status not in ERR:
                         res["violations"].append(["refusal-with-wrong-status", witness])
+                    elif status not in exp:
+                        bump("refused_with_another_status_of_the_set")
+                    if dest == "self" and resp is not None and resp.header(RELAY_MARK) is not None:
+                        res["violations"].append(["refusal-came-back-through-a-relay", dict(witness, note="the response carries the marker the agent puts on relayed responses: the request was sent on (to the agent's own listener) and the refusal is that of the inner hop")])
                 if attr != "record" or (docs.get(dest) and docs[dest]["mode"].lower() != "disabled") or exp != "FORWARD":
                     res["nontrivial"].append(common.sha([branch, method, attr, ident.user]))
                 if len(res["samples"]) < 3 and exp != "FORWARD":
@@ -186,12 +202,16 @@ def worker(args, scratch):
                 wit = {"rule_names_program_by": by, "pid": e.pid, "generation": gi, "current_program": e.exe, "status": st, "relayed": relayed}
                 if gi == 0:
                     known_ids[vid] = "imds"
-                    if st != 200 or not relayed:
-                        res["violations"].append(["forward-expected-but-not-relayed", wit])
+                    if relayed and st != 200:
+                        res["violations"].append(["forwarded-but-client-got-wrong-response", wit])
+                    elif not relayed:
+                        cnt["authorized_by_reference_but_refused"] = cnt.get("authorized_by_reference_but_refused", 0) + 1
+                        if st not in ERR:
+                            res["violations"].append(["not-relayed-and-no-error-status", wit])
                 else:
                     if relayed:
                         res["violations"].append(["refused-request-reached-upstream", wit])
-                    if st != 403:
+                    if st not in ERR:
                         res["violations"].append(["refusal-with-wrong-status", wit])
                 res["nontrivial"].append(common.sha(["exec", by, gi]))
             cnt["exec_histories"] = cnt.get("exec_histories", 0) + 1
@@ -222,6 +242,11 @@ def run(tier, rep):
                             "non-trivial = any refusal branch, unattributed/odd attribution, or a non-disabled rule set on the destination; distinct by (branch, method, attribution, user)")
     for res in sandbox.run_many("vf.props.c01", "worker", args, workers=shards, timeout=900 if tier == "quick" else 5400):
         rep.merge_worker(res)
+    ef, ar = rep.coverage.get("expected_forward", 0), rep.coverage.get("authorized_by_reference_but_refused", 0)
+    if ef and ar * 2 > ef:
+        rep.inconclusive.append("%d of the %d requests that the reference authorizes were refused: an agent that relays (almost) nothing satisfies 'relayed only if' "
+                                "trivially, the run shows little" % (ar, ef))
     rep.assumptions += ["hook H1 stands in for the kernel audit map (lookup/remove); the aya glue is bypassed",
                         "the 500 branch (policy lookup failure) cannot be driven end to end (all actors live in one runtime); it is probed at the public lookup function with a key-keeper state whose actor is gone",
-                        "precedence between simultaneously applicable refusal reasons is not judged (any applicable status accepted)"]
+                        "which of the four statuses (404/421/500/403) answers which refusal reason is not judged (the statement names the set); a request the reference authorizes "
+                        "and the agent refuses with one of them is counted (authorized_by_reference_but_refused), not reported"]
